@@ -520,10 +520,10 @@ fn make(tier: &str, seed: u64) -> Vec<Box<dyn Harness>> {
     let thorough = tier == "thorough";
     let mut v: Vec<Box<dyn Harness>> = vec![];
     let mut topos: Vec<Topo> = vec![];
-    topos.extend(rotate_subset(t3().into_iter().filter(|t| t.m() >= 2 && t.m() <= 6).collect(), seed, if thorough { 96 } else { 16 }));
-    topos.extend(t3m(seed, if thorough { 48 } else { 8 }).into_iter().filter(|t| t.m() <= 7));
-    topos.extend(rotate_subset(d4s(5), seed, if thorough { 96 } else { 16 }));
-    topos.extend(rotate_subset(u4(true).into_iter().filter(|t| t.m() >= 2 && t.m() <= 5).collect(), seed, if thorough { 64 } else { 10 }));
+    topos.extend(rotate_subset(t3().into_iter().filter(|t| t.m() >= 2 && t.m() <= if thorough { 5 } else { 4 }).collect(), seed, if thorough { 96 } else { 16 }));
+    topos.extend(t3m(seed, if thorough { 48 } else { 12 }).into_iter().filter(|t| t.m() <= 5));
+    topos.extend(rotate_subset(d4s(4), seed, if thorough { 96 } else { 12 }));
+    topos.extend(rotate_subset(u4(true).into_iter().filter(|t| t.m() >= 2 && t.m() <= if thorough { 4 } else { 3 }).collect(), seed, if thorough { 64 } else { 10 }));
     let mut rng = Rng::new(seed ^ 0x707);
     for t in topos {
         let s = rng.below(t.n as u64) as usize;
